@@ -106,12 +106,13 @@ def validate_cases(tier, seed):
     cs.append({"shape": 11})                 # the same two named fragments meeting twice (exclusive / non-exclusive parents, either order)
     cs.append({"shape": 12})                 # two defined fragments side by side, each may spread a further (defined / undefined / own) fragment
     cs.append({"shape": 13})                 # one argument position used twice (defaulted and plain variable, literal, null, left out)
+    cs.append({"shape": 14})                 # a variable used bare / only inside a list or object literal (also nested)
     return cs
 
 
-SCHEMA_SHAPE_PARTS = {0: 1, 1: 1, 2: 1, 3: 5, 4: 4, 5: 3, 6: 5}
+SCHEMA_SHAPE_PARTS = {0: 1, 1: 1, 2: 1, 3: 5, 4: 4, 5: 3, 6: 5, 7: 1}
 # number of top-level definitions of every piece (the harness refuses an order / cut that does not exist)
-SCHEMA_SHAPE_DEFS = {(0, None): 5, (1, None): 3, (2, None): 6,
+SCHEMA_SHAPE_DEFS = {(0, None): 5, (1, None): 3, (2, None): 6, (7, None): 8,
                      (3, 0): 7, (3, 1): 7, (3, 2): 7, (3, 3): 7, (3, 4): 7,
                      (4, 0): 3, (4, 1): 3, (4, 2): 4, (4, 3): 5,
                      (5, 0): 7, (5, 1): 8, (5, 2): 8,
@@ -146,10 +147,36 @@ def schema_order_cases(tier, seed):
         n_orders = 1 + (n - 1) + n * (n - 1) // 2
         if tier == "quick":
             combos = [(0, 1)]                # reversed, one source per definition
+            if c["shape"] == 7:              # extension-only types: also every rotation in one source
+                combos += [(o, 0) for o in range(1, n)]
         else:
             combos = [(o, 1) for o in range(n_orders)] + [(0, 0)] + [(0, 1 + k) for k in range(1, n)] + [(1, 0)]
         for o, sp in combos:
             cs.append(dict(c, order=o, split=sp))
+    return cs
+
+
+def argmap_cases(tier, seed):
+    """Documents that carry arguments: literals of every kind at every argument of the kitchen-sink field,
+    variable definitions (every type shape x default) used bare / in a list / in an object, directives with
+    arguments, one position used twice, variables nested in literals."""
+    return [c for c in validate_cases(tier, seed) if c["shape"] in (0, 1, 5, 6, 13, 14)]
+
+
+VAR_ARGS = ["i", "i1", "l", "l1", "ll", "ll1", "lll", "e", "el", "in", "inl", "in1", "s", "fl", "b", "id", "c", "cl"]
+
+
+def varcoerce_cases(tier, seed):
+    """One variable of each of 18 types x the 17 top-level alternatives of the JSON-like value (the
+    alternatives below the top are solver variables), plus the variable left out (with / without default)."""
+    cs = []
+    for a in range(len(VAR_ARGS)):
+        for v in range(17):
+            cs.append({"arg": a, "val": v})
+        cs.append({"arg": a, "supplied": 0})
+    cs.append({"arg": 0, "supplied": 0, "default": 1})
+    cs.append({"arg": 0, "default": 1, "val": 0})
+    cs.append({"arg": 0, "default": 1, "val": 1})
     return cs
 
 
@@ -158,7 +185,7 @@ def determinism_cases(tier, seed):
     lighter pieces of each shape; thorough takes every piece of validate_cases."""
     if tier == "thorough":
         return validate_cases(tier, seed)
-    cs = [{"shape": 10}, {"shape": 11}, {"shape": 12}, {"shape": 13}, {"shape": 9}, {"shape": 5}, {"shape": 6}, {"shape": 3}, {"shape": 4}]
+    cs = [{"shape": 10}, {"shape": 11}, {"shape": 12}, {"shape": 13}, {"shape": 14}, {"shape": 9}, {"shape": 5}, {"shape": 6}, {"shape": 3}, {"shape": 4}]
     for a3 in (0, 2, 4):
         cs.append({"shape": 0, "alt3": a3})
     for a1, a3 in ((0, 0), (1, 1), (2, 2), (3, 3), (4, 0)):
@@ -173,7 +200,7 @@ def determinism_cases(tier, seed):
 def compose_cases(tier, seed):
     """hval.Compose validates every document 37 times (default set, explicit full list, each of
     the 27 rules alone, 4 twin pairs): light pieces only."""
-    cs = [{"shape": 10}, {"shape": 11}, {"shape": 12}, {"shape": 13}, {"shape": 9}, {"shape": 5}, {"shape": 6}, {"shape": 4}]
+    cs = [{"shape": 10}, {"shape": 11}, {"shape": 12}, {"shape": 13}, {"shape": 14}, {"shape": 9}, {"shape": 5}, {"shape": 6}, {"shape": 4}]
     for a3 in (0, 4):
         cs.append({"shape": 0, "alt3": a3})
     for top in range(3):
@@ -263,6 +290,49 @@ CHECKS = {
         "outside": "orders that are neither a reversal, a rotation nor a transposition of the written order; more than one source per definition; more than 8 definitions",
         "assumptions": PARSE_ASSUME + ["the prelude is parsed with the real lexer, concretely"],
     },
+    "C12": {
+        "units": [{"pkg": "verifh/hfmt", "fn": "StringValue",
+                   "cases": {"quick": [{"n": n, "block": b} for n in (0, 1, 2) for b in (0, 1)],
+                             "thorough": [{"n": n, "block": b} for n in (0, 1, 2, 3) for b in (0, 1)] + [{"n": 4, "block": 0}]},
+                   "panic_prop": "C12"}],
+        "covers": ["C12.string-read-back"],
+        "case_timeout": {"quick": 400, "thorough": 3000},
+        "level_text": "Only the clause 'string values survive byte for byte whatever characters they contain' is decided, because that is where the inputs are rare: the value of a string argument is n arbitrary bytes (solver variables; assumed well-formed UTF-8 or free of characters that need an escape - the two forms a lexed string value can take), the real formatter prints a one-field document holding it (Value.String's quoting runs symbolically), the real lexer reads the text back, and the token value is asserted equal to the bytes. The structural half of the property (same operations, selections, directives; fixpoint) is outside this check.",
+        "bounds": {"quick": "string and block-string values of <= 2 arbitrary bytes (every byte value, every pair), default formatter options",
+                   "thorough": "<= 3 bytes (4 for ordinary strings)"},
+        "outside": "NOT DECIDED: the structural round trip (operations, fragments, selections, arguments, directives, types), the fixpoint clause, other formatter options (indent, comments, compaction: none of them touches value printing); string values longer than the bound; values built by hand that no lexer run can produce (an escape-needing character together with bytes that are not UTF-8)",
+        "assumptions": ["bytes.Buffer and strings.Builder are engine models (append-only byte sequences)", "the six tokens before the string (query { f ( a :) are concrete text and are lexed concretely"],
+    },
+    "C13": {
+        "units": [{"pkg": "verifh/hfmt", "fn": "Description",
+                   "cases": {"quick": [{"n": n, "where": w} for n in (1, 2) for w in (0, 1)], "thorough": [{"n": n, "where": w} for n in (1, 2, 3) for w in (0, 1)]}, "panic_prop": "C13"}],
+        "covers": ["C13.description-read-back"],
+        "case_timeout": {"quick": 400, "thorough": 3000},
+        "level_text": "Only the clause about descriptions is decided: a scalar definition carrying a description of n arbitrary bytes (solver variables) is printed by the real FormatSchemaDocument, the real lexer reads the description token back (block-string value computation included), and the value is asserted equal to the description.",
+        "bounds": {"quick": "descriptions of 1-2 arbitrary bytes on a top-level definition and on a field (printed one level in), default formatter options", "thorough": "1-3 bytes"},
+        "outside": "NOT DECIDED: the structural round trip of definitions, extensions, members, defaults and directives; FormatSchema of a loaded schema; descriptions of arguments, enum values and directive definitions; longer descriptions; other formatter options",
+        "assumptions": ["bytes.Buffer is an engine model", "strings.Split on a symbolic string is modelled (engine self-test against Go)"],
+    },
+    "C14": {
+        "units": [{"pkg": "verifh/hval", "fn": "VarCoerce", "cases": varcoerce_cases, "panic_prop": "C14"}],
+        "covers": ["C14.coerced", "C14.refused", "C14.coerced-non-null", "C14.default-filled-in"],
+        "case_timeout": {"quick": 600, "thorough": 2400},
+        "level_text": "validator.VariableValues runs symbolically on an operation with one variable (parsed by the real parser, accepted by the real validator) and a JSON-like value built from nil, int, int64 (symbolic), float64, strings (symbolic choice incl. numeric and enum spellings), bool, json.Number, []interface{} and map[string]interface{} nested up to three levels, where the alternative chosen at every position is a solver variable. The coercer's reflection calls run against an engine model of package reflect (reflect.Value as static type + engine value; Kind, Elem, IsNil, IsValid, Type, Len, Index, MapKeys, MapIndex, SetMapIndex, Interface, String, MakeSlice, SliceOf, Append, with reflect's own panics) - reflect itself reads runtime type descriptors through unsafe pointers and cannot be executed; every counterexample is replayed against the real reflect natively. Asserted: no panic; a returned value conforms to the declared type (reference predicate written from section 3.x input coercion: non-null, lists item by item, input objects with only declared fields and every required field, enums holding a declared value, scalars of a compatible kind); a value that cannot be coerced is refused; a variable left out takes its default.",
+        "bounds": {"quick": "18 variable types (Int, Int!, [Int], [Int!]!, [[Int]], [[Int!]]!, [[[Int]]], E, [E!], In, [In], In!, String, Float, Boolean, ID, custom scalar, list of it) x values nested up to 3 levels from 17 alternatives per position (7 at the deepest)",
+                   "thorough": "same"},
+        "outside": "values holding typed Go slices / maps other than []interface{} and map[string]interface{}, pointers and structs; more than one variable; 32-bit range of Int; numeric strings accepted for Int / Float (taken as the 'compatible kind' the property speaks of); __typename keys; list depth > 3; the reflect model is validated by replay of every finding and cover witness, not proved equivalent to package reflect",
+        "assumptions": VALIDATE_ASSUME[:1] + ["package reflect is an engine model (listed in level_text)", "json.Number's String / Int64 / Float64 are executed from source; strconv.ParseInt / ParseFloat run per concrete option of a symbolic choice"],
+    },
+    "C15": {
+        "units": [{"pkg": "verifh/hval", "fn": "ArgMap", "cases": argmap_cases, "panic_prop": "C15"}],
+        "covers": ["C15.field-argument-map", "C15.directive-argument-map", "C15.explicit-null-kept", "C15.invalid-document-skipped"],
+        "case_timeout": {"quick": 400, "thorough": 1200},
+        "level_text": "Documents are the symbolic token streams of C08; only paths on which the real validator accepts the document go on (the precondition 'passed validation' is computed by the library itself). The variables map is built in the form coercion returns: each variable supplied with a conforming value, supplied as null (when nullable), or left out with its default filled in - the choice is a solver variable per variable definition. For every field and directive of every operation the real ArgumentMap runs symbolically; any panic is a violation (totality), and the result is asserted equal, key by key and value by value, to CoerceArgumentValues written from section 6.4.1 of the specification (literal, else variable value, else argument default; absent otherwise; lists and objects converted recursively with variables substituted).",
+        "bounds": {"quick": "the C08 document shapes that carry arguments (one argument with every kind of literal at each of 14 argument positions incl. custom scalar, enum, input object, oneOf, nested list; variable definitions of every type shape with/without default used bare, in a list, in an object; directives with an argument on fields, operations and inline fragments; one position used twice; variables nested two levels deep in literals); 2-3 ways of supplying each variable",
+                   "thorough": "same"},
+        "outside": "fragment definitions' fields (only operations are walked); variables maps that did not come from coercion (a variable left out although it has a default); float values are compared by kind, not by value; documents larger than the shapes",
+        "assumptions": VALIDATE_ASSUME[:3] + ["the variables map is constructed in the harness in the form VariableValues returns (defaults filled in), not by calling VariableValues"],
+    },
     "C02": {
         "units": [{"pkg": "verifh/hval", "fn": "ValidateRef", "cases": validate_cases, "panic_prop": "C02"},
                   {"pkg": "verifh/hval", "fn": "SchemaLoadRef", "cases": schema_load_cases, "panic_prop": "C02"}],
@@ -315,7 +385,7 @@ CHECKS = {
     },
     "C20": {
         "units": [
-            {"pkg": "verifh/hlex", "fn": "StepTotal", "cases": lex_cases(4, 6, openings=False), "panic_prop": None},
+            {"pkg": "verifh/hlex", "fn": "StepTotal", "cases": lex_cases(4, 6), "panic_prop": None},
             {"pkg": "verifh/hparse", "fn": "QueryTotal", "cases": stream_cases(NQ_PREFIX, NQ_ALPHA, 3, 2, 4, 3, {"invalid": 1}), "panic_prop": None},
             {"pkg": "verifh/hparse", "fn": "SchemaTotal", "cases": stream_cases(NS_PREFIX, NS_ALPHA, 3, 2, 4, 3, {"invalid": 1}), "panic_prop": None},
             {"pkg": "verifh/hval", "fn": "ValidateRef", "cases": validate_cases, "panic_prop": None},
@@ -350,4 +420,6 @@ CHECKS = {
         "assumptions": LEX_ASSUME,
     },
 }
-NOT_APPLICABLE = {}
+NOT_APPLICABLE = {
+    "C19": "Solver-based checking of the real code cannot reach this property. What decides it is encoding/json's reflection-driven encoder and decoder (type-word dispatch through unsafe pointers, Unmarshaler detection, case-insensitive field matching, its string escaping) interleaved with the custom decoders in ast/decode.go. The engine cannot execute that code (package reflect and unsafe are outside its SSA semantics; the reflect model built for C14 covers 18 calls over JSON-like values, not struct traversal by type descriptor), and a model of encoding/json precise enough to decide, say, which selection kind a JSON object decodes into would be a re-implementation whose verdict is about the model, not about /repo. No check is registered; see DESIGN.md section 6 (C19).",
+}
